@@ -211,6 +211,19 @@ def run(ctx):  # noqa: C901
                    "permute_systems(psi, [2, 1, 0], psi_dims) on the unreversed dims" if okd_ and okp_ else
                    f"at the call the dims are {show(dv_)[:70] if dv_ else '?'} and the permutation {unparse(b_['perm']) if isinstance(b_.get('perm'), ast.AST) else '?'}: the subsystem sizes handed to "
                    "permute_systems do not describe the state's current ordering (only harmless when dim_B == dim_R)", c_, required=dv_ is not None)
+    if not any(isinstance(m.bind(c_, cal_.func).get("input_mat"), ast.Name) and m.bind(c_, cal_.func)["input_mat"].id == "psi" for c_, cal_ in calls_from(m, fs, "permute_systems.permute_systems")):
+        ctx.ob("R-ORDER", fs, "psi is permuted (B,A,R) -> (R,A,B) with the caller's dims, before the dims list is reversed", False,
+               "psi is no longer permuted to the (R, A, B) ordering the programme assumes")
+    # after the permutation the dims list describes (R, A, B): psi_dims is re-bound to [dim_r, dim_a, dim_b], unpacked from (dim_b, dim_a, dim_r)
+    rev = [n for n in walk_no_nested(fs.node) if isinstance(n, ast.Assign) and isinstance(n.targets[0], ast.Name) and n.targets[0].id == "psi_dims" and isinstance(n.value, ast.List)]
+    unp = [n for n in walk_no_nested(fs.node) if isinstance(n, ast.Assign) and isinstance(n.targets[0], ast.Tuple) and isinstance(n.value, ast.Name) and n.value.id == "psi_dims"]
+    okrev = bool(rev) and bool(unp) and [unparse(e) for e in rev[0].value.elts] == [unparse(e) for e in unp[0].targets[0].elts][::-1]
+    ctx.ob("R-ORDER", fs, "the dims list is reversed together with the state", okrev, "psi_dims = reversed unpacking" if okrev else "psi_dims is not re-bound to the reversed dimensions after the permutation")
+    # PPT constraints on the Choi state: cumulative subsystem lists [1], [1, 2], ..., [1..k]
+    acc = [n for n in walk_no_nested(fs.node) if isinstance(n, (ast.Assign, ast.AugAssign)) and "sys" in {x.id for x in ast.walk(n) if isinstance(x, ast.Name) and isinstance(x.ctx, ast.Store)}
+           and any(isinstance(p_, ast.For) and any(x is n for x in ast.walk(p_)) for p_ in walk_no_nested(fs.node))]
+    ctx.ob("R-SDP", fs, "PPT constraints range over the cumulative subsystem lists [1..i], i = 1..k", bool(acc), "sys grows by one copy per constraint" if acc else
+           "the subsystem list is not extended inside the loop: every PPT constraint is the (trivial) transpose of no subsystem")
     okk = False
     for c_, cal_ in calls_from(m, fs, "symmetric_projection.symmetric_projection"):
         b_ = m.bind(c_, cal_.func)
